@@ -308,6 +308,8 @@ func (c *Ctx) evalSelector(env *Env, x *ast.SelectorExpr) Val {
 		case "rank":
 			c.declareFun("nd_rank", []Sort{SInt}, SInt)
 			return app(SInt, "nd_rank", v.Ref)
+		case "root":
+			return c.ndRoot(v)
 		}
 	case StructPtr:
 		// field (possibly promoted through an embedded struct)
@@ -369,9 +371,21 @@ func (c *Ctx) evalCall(env *Env, x *ast.CallExpr) Val {
 		recv := c.eval(env, se.X)
 		switch r := recv.(type) {
 		case IfaceV:
+			arg := func(i int) T {
+				if i < len(x.Args) {
+					return c.eval(env, x.Args[i]).(T)
+				}
+				return intLit(0)
+			}
 			switch se.Sel.Name {
 			case "at":
 				return c.sel(c.ndCells(env.st, r), c.eval(env, x.Args[0]).(T))
+			case "dim":
+				return c.ndDim(r, arg(0))
+			case "idx":
+				return c.ndIdx(r, arg(0), arg(1), arg(2))
+			case "elem":
+				return c.locRead(env.st, r, arg(0), arg(1), arg(2))
 			}
 		}
 		panic(vcErr("method %s in contract unsupported on %T", se.Sel.Name, recv))
@@ -473,6 +487,12 @@ func (c *Ctx) evalCall(env *Env, x *ast.CallExpr) Val {
 			panic(vcErr("as: %s is not a struct", tn.Name))
 		}
 		return StructPtr{ref, typeKey(obj.Type()), st, obj.Type()}
+	case "injective":
+		x, ok := c.eval(env, args[0]).(IfaceV)
+		if !ok {
+			panic(vcErr("injective: not an array"))
+		}
+		return c.rootInjective(x)
 	case "ite":
 		cnd := c.evalBool(env, args[0])
 		return mergeVals(cnd, c.eval(env, args[1]), c.eval(env, args[2]))
